@@ -63,9 +63,30 @@ always-dirty statement is dirty AGAIN) does not: the model re-runs a superset.  
 the run-set rule is therefore relaxed to: engine's set is a subset of the model's and every surplus statement lies below
 an always-dirty statement (tainted_statements); log/times are not compared for those statements (their recorded times
 drift apart); accept / exists / clean stay exact.  With no_inputless_phony = true every rule is exact.
+The recorded-deps model (HistDepsDefs.dirty_now_d is built on dirty_now) has a second source of always-dirty statements: a
+deps statement one of whose hidden reads is a source file that is MISSING (no rule: dirty, not an error) is dirty in
+every scan; if it is `restat` and leaves its outputs alone, ninja prunes below it and the model does not.  Same relaxed
+rule, for the builds in which such a file is missing.
 
-  check(ctx_or_None, seed, n, dry=0.0, fault=False) -> (mismatches, stats)     mismatches: list of Mismatch (text, replay)
-  python3 tools/histmodel.py <seed> <n> [--dry P] [--fault] [--keep DIR]      standalone
+RECORDED DEPENDENCIES (coq/Engine/HistDepsDefs.v dbuild, theorems in Properties_C10hist.v; used by props/c10.py): graphs
+of fragment ABD = AB + statements with deps = gcc whose commands read HIDDEN files (sources, also ones the manifest never
+mentions, and generated files) and report them through a depfile that ninja moves into the deps log.  gen_graph's msvc /
+depfile-only statements are rewritten to gcc (or lose their discovered reads when they have several outputs); hidden reads
+never change inside a history.  Three quarters of the graphs follow the idiom "a generated hidden read is also an
+order-only input" (wf_reads); the others do not, are built with -j1, and a history is dropped from the build on in which
+ninja's own order starts a reader before the generator of a hidden read that is started in the same build (the model's
+order is the manifest order; counted).  The model runs through `hist_run histd`; the model line carries H= (hidden reads)
+and L= (nodes the manifest does not mention).  Compared per build: everything above (clean = the clean build of the INLINED
+graph, engine.py's clean_contents; times also against the hidden reads) plus deps: a deps-log record exists in both or in
+neither, lists the same SET of nodes, and its mtime stands in the same relation to the output's mtime.  The fragment
+verdict is frag_ABD && topo_ordered (inline) && frag_AB (inline).  The model's side-condition booleans
+hidden_reads_ordered / no_restat_upstream_of_deps / hist_present gate the selfcheck (C10_equiv + C01: accepted build =>
+everything needed is clean); where they are false the two listed findings restat-prune-ignores-recorded-deps and
+dirty-edge-deps-not-loaded appear, and they have to appear IDENTICALLY on both sides (same commands, same stale files):
+such builds are counted by shape.
+
+  check(ctx_or_None, seed, n, dry=0.0, fault=False, deps=False) -> (mismatches, stats)     mismatches: list of Mismatch (text, replay)
+  python3 tools/histmodel.py <seed> <n> [--dry P] [--fault] [--deps] [--keep DIR]      standalone
 
 Model binary: $HISTMODEL_BIN if set, else hist_run next to vlib.build_model()'s model_run."""
 import os, sys, random, collections, copy, re
@@ -112,16 +133,32 @@ def strip_graph(g, rnd=None, no_inputless_phony=False):
 
 GARBAGE_BASE = 10 ** 9        # model contents written by failing commands: GARBAGE_BASE + 1000 * k + node
 
-def gen_history(rnd, sid, outside=False, dry=0.0, fault=False):
+def gcc_only(g):
+    """fragment ABD: every statement with discovered reads is deps = gcc (one output); hidden reads listed once"""
+    for e in g.edges:
+        if not (e.deps or e.depfile): e.hidden = []; continue
+        if len(e.outs) == 1 and not e.phony:
+            e.deps = 'gcc'; e.depfile = e.out0 + '.d'
+            e.hidden = [x for i, x in enumerate(e.hidden) if x not in e.hidden[:i]]
+        else:
+            e.deps = ''; e.depfile = ''; e.hidden = []
+    return g
+
+def gen_history(rnd, sid, outside=False, dry=0.0, fault=False, deps=False):
     """dry: probability that a build is preceded by a dry run of the same targets (and of a dry run on its own);
     fault: exactly one build of the history carries faults (-j1 -k1)"""
     feat = dict(FEAT)
     if outside: feat['validations'] = 0.6
-    g = strip_graph(engine.gen_graph(rnd, rnd.randrange(2, 10), feat), rnd, no_inputless_phony=fault)
+    wf_reads = True
+    if deps: feat['deps'] = 0.6; wf_reads = rnd.random() < 0.75
+    g = strip_graph(engine.gen_graph(rnd, rnd.randrange(2, 10), feat, wf_reads), rnd, no_inputless_phony=fault)
+    if deps: gcc_only(g)
     h = ec.Hist(sid, g)
+    h.deps_mode = bool(deps); h.wf_reads = wf_reads
     fstate = dict(todo=fault)
     allouts = [o for e in g.edges for o in e.outs]
     used_sources = sorted({i for e in g.edges for i in e.manifest_ins() + e.vals if i in g.sources})
+    hidden_sources = sorted({i for e in g.edges for i in e.hidden if i in g.sources})
     def do_build():
         targets = None
         r = rnd.random()
@@ -129,7 +166,7 @@ def gen_history(rnd, sid, outside=False, dry=0.0, fault=False):
             # a source can be named as a target when the manifest mentions it (otherwise: "unknown target", a command-line error)
             cand = allouts + (used_sources if rnd.random() < 0.3 else [])
             targets = rnd.sample(cand, rnd.randrange(1, min(3, len(cand)) + 1))
-        j = rnd.choice([1, 1, 2, 3, 4, 8]); k = rnd.choice([1, 1, 1, 2, 0])
+        j = rnd.choice([1, 1, 2, 3, 4, 8]) if wf_reads else 1; k = rnd.choice([1, 1, 1, 2, 0])
         sched = ec.rand_sched(rnd, 2 * len(g.edges) + 2)
         if dry and rnd.random() < dry:
             h.build(rnd, targets, j=1, k=1, sched=sched, dry=1)                   # ninja -n ...
@@ -157,11 +194,53 @@ def gen_history(rnd, sid, outside=False, dry=0.0, fault=False):
     last = False
     st = do_build()
     if rnd.random() < 0.3: repeat(st)
+    prod0 = g.producer()
+    def upstream_restat(e, seen=()):
+        """a restat statement with a source input that e reads from (transitively, hidden reads included)"""
+        for i in e.exp + e.imp + e.hidden:
+            p_ = prod0.get(i)
+            if p_ is None or p_.idx in seen: continue
+            if p_.restat and not p_.phony and any(x in g.sources for x in p_.exp + p_.imp): return p_
+            u = upstream_restat(p_, seen + (e.idx,))
+            if u: return u
+        return None
+    def motif():
+        """the two situations the side conditions of Properties_C10hist exclude, set up on purpose"""
+        de = [e for e in g.edges if e.deps and e.hidden]
+        rnd.shuffle(de)
+        for e in de:
+            hs = [x for x in e.hidden if x in g.sources]; u = upstream_restat(e)
+            if hs and u is not None and rnd.random() < 0.6:
+                # a restat statement above e re-runs without changing its output (its source is touched) while a hidden source of e changes
+                src = rnd.choice([x for x in u.exp + u.imp if x in g.sources])
+                if src not in h.sources or src in hs: continue
+                h.add(ec.Step('touch', 'step touch %s' % hx(src), path=src))
+                x = rnd.choice(hs); h.edit(x, '%s.%d' % (x, rnd.randrange(1000000)))
+                h.tags.add('motif restat above a deps statement'); return True
+            gh = [x for x in e.hidden if prod0.get(x) is not None and not prod0[x].phony and x not in e.manifest_ins()]
+            own = [x for x in e.exp + e.imp if x in g.sources]
+            if gh and own:
+                # e is dirty for a reason of its own while the generator of a hidden read (no manifest path) is out of date
+                p_ = prod0[rnd.choice(gh)]; ps = [x for x in p_.exp + p_.imp if x in g.sources]
+                if not ps: continue
+                for x in (rnd.choice(own), rnd.choice(ps)): h.edit(x, '%s.%d' % (x, rnd.randrange(1000000)))
+                st = h.build(rnd, [e.out0], j=1, k=1, sched=ec.rand_sched(rnd, 2 * len(g.edges) + 2))
+                h.tags.add('motif dirty deps statement, stale generator'); return True
+        return False
     for _ in range(rnd.randrange(1, 7)):
         r = rnd.random()
         ne = [e for e in g.edges if not e.phony]
-        if r < 0.35:
-            sname = rnd.choice(sorted(g.sources))
+        if deps and r < 0.15 and motif(): pass
+        elif deps and 0.15 <= r < 0.19:
+            # outside the histories of the theorems, inside what the model defines: the deps log is lost / an output of a deps
+            # statement is overwritten by hand (its record is then older than the file)
+            de = [e for e in g.edges if e.deps]
+            if rnd.random() < 0.5 or not de: h.add(ec.Step('dropdeps', 'step dropdeps')); h.tags.add('dropdeps')
+            else:
+                o = rnd.choice(de).out0
+                h.add(ec.Step('edit', 'step edit %s %s' % (hx(o), hx('tampered.%d' % rnd.randrange(1000000))), path=o)); h.tags.add('tampered output')
+        elif r < 0.35:
+            sname = rnd.choice(hidden_sources) if hidden_sources and rnd.random() < 0.4 else rnd.choice(sorted(g.sources))
             h.edit(sname, 'common' if rnd.random() < 0.15 else '%s.%d' % (sname, rnd.randrange(1000000)))
         elif r < 0.45:
             ex = sorted(x for x in g.sources if x in h.sources)
@@ -204,6 +283,11 @@ class Map:
             for p in e.exp + e.imp + e.oo + e.vals:
                 if p not in s.names: s.names.append(p)
         s.id = {p: i for i, p in enumerate(s.names)}
+        for e in g.edges:
+            for p in e.hidden:
+                if p not in s.names: s.names.append(p)
+        s.deps_mode = bool(getattr(h, 'deps_mode', False))
+        s.mode = 'histd' if s.deps_mode else 'hist'
         s.by_out0 = {e.out0: k for k, e in enumerate(g.edges)}      # out0 -> position
         s.cid = {}                                                   # content string -> number
         s.known_hash = {}                                            # command text -> ninja's hash of it (learnt from the trace)
@@ -264,6 +348,7 @@ class Map:
                 if st.path in cur: S.append('e%d:%d' % (ID[st.path], s.content(cur[st.path])))
             elif st.kind == 'rm':
                 cur.pop(st.path, None); S.append('d%d' % ID[st.path])
+            elif st.kind == 'dropdeps' and s.deps_mode: S.append('x')
             elif st.kind == 'manifest':
                 for pos, (e0, e1) in enumerate(zip(s.prev_edges(h, st), st.g_after.edges)):
                     if e0.ver != e1.ver: S.append('c%d:%d' % (s.num[pos], s.hash_of(pos, e1)))
@@ -280,7 +365,11 @@ class Map:
                 else: S.append('b' + t)
             else:
                 raise ValueError('step kind %s is outside the model' % st.kind)
-        return 'N=%d E=%s L=- S=%s' % (len(s.names), ';'.join(E) or '-', ','.join(S) or '-')
+        if not s.deps_mode: return 'N=%d E=%s L=- S=%s' % (len(s.names), ';'.join(E) or '-', ','.join(S) or '-')
+        mentioned = {p for e in g.edges for p in e.exp + e.imp + e.oo + e.outs + e.vals}
+        L = ','.join(str(ID[p]) for p in s.names if p not in mentioned) or '-'
+        H = ';'.join('%d:%s' % (s.num[pos], j(e.hidden)) for pos, e in enumerate(g.edges) if e.hidden and e.deps) or '-'
+        return 'N=%d E=%s L=%s H=%s S=%s' % (len(s.names), ';'.join(E) or '-', L, H, ','.join(S) or '-')
     def prev_edges(s, h, st):
         """the statements as they were before this manifest rewrite"""
         prev = h.g0
@@ -299,9 +388,11 @@ def parse_model(out, m):
         kv = dict(x.split('=', 1) for x in bl.split()[1:])
         nodes = {}
         for i, it in enumerate(kv['nodes'].split(',') if kv['nodes'] != '-' else []):
-            f = it.split(':')          # <x><q> : content : mtime : log hash : log mtime
+            f = it.split(':')          # <x><q> : content : mtime : log hash : log mtime [: deps mtime : deps nodes]
+            dp = None
+            if len(f) > 5 and f[5] != '-': dp = (int(f[5]), [] if f[6] == '-' else [m.names[int(x)] for x in f[6].split('+')])
             nodes[m.names[i]] = (it[0] == '1', it[1] == '1', f[1], None if f[2] == '-' else int(f[2]),
-                                 None if f[3] == '-' else (int(f[3], 16), int(f[4])))
+                                 None if f[3] == '-' else (int(f[3], 16), int(f[4])), dp)
         raw = kv.get('run', kv.get('list', '-'))
         raw = [] if raw == '-' else [int(x) for x in raw.split('+')]
         builds.append(dict(what=bl.split()[0], ok=kv['ok'] == '1', raw=raw, run=[m.order[x] for x in raw], nodes=nodes,
@@ -324,15 +415,19 @@ def through_phony(g, prod, i, depth=0):
         return [x for j in p.exp + p.imp + p.oo for x in through_phony(g, prod, j, depth + 1)]
     return [p]
 
-def tainted_statements(g):
+def tainted_statements(g, sources=None):
     """positions of the real statements that read (non-order-only, through any statements) an output of an ALWAYS-DIRTY real
-    statement, i.e. of one that reads an input-less phony name directly or through phony aliases"""
+    statement, i.e. of one that is dirty in EVERY scan, also right after it has run: it reads an input-less phony name (directly
+    or through phony aliases), or -- recorded deps -- one of its hidden reads is a source file that does not exist now (`sources`
+    = the source files present: "a missing recorded dependency makes the statement dirty rather than being an error")"""
     ad = set()                      # names that are always dirty: outputs of input-less phony statements and aliases of them
+    if sources is not None:
+        ad |= {x for e in g.edges if e.deps for x in e.hidden if x in g.sources and x not in sources}
     for e in g.edges:
         if e.phony and (not e.manifest_ins() or any(i in ad for i in e.exp + e.imp)): ad |= set(e.outs)
     tn = set(); res = set()         # names below an always-dirty real statement
     for k, e in enumerate(g.edges):
-        nonoo = e.exp + e.imp
+        nonoo = e.exp + e.imp + e.hidden
         if any(i in tn for i in nonoo):
             tn |= set(e.outs)
             if not e.phony: res.add(k)
@@ -379,7 +474,7 @@ def compare_build(h, m, st, b, mb, prev_ok_same, nip, cnt, prev=None, flags=None
     if e_run != m_run:
         extra = set(m_run) - set(e_run)
         if kind == 'dry': bad.append(('dry-list', 'commands listed by -n: engine %s, model %s' % (nm(e_run), nm(m_run))))
-        elif not nip and set(e_run) <= set(m_run) and extra <= tainted_statements(g) and kind == 'plain':
+        elif set(e_run) <= set(m_run) and extra <= tainted_statements(g, st.sources if m.deps_mode else None) and kind == 'plain':
             # KNOWN DEVIATION of HistDefs.dirty_now (see the module docstring): downstream of an always-dirty statement the model
             # re-runs what ninja prunes
             cnt['builds where the model re-ran statements ninja pruned below an always-dirty one (documented deviation)'] += 1
@@ -445,7 +540,9 @@ def compare_build(h, m, st, b, mb, prev_ok_same, nip, cnt, prev=None, flags=None
     # build-log entries and the time relations the dirty test reads: entry present, entry made by the current command line,
     # recorded mtime against the output's own mtime and against every non-order-only input's; output against input
     sgn = lambda a, b: (a > b) - (a < b)
-    skip = set() if nip else tainted_statements(g)       # where the documented deviation lets the two states drift apart
+    # where the documented deviation lets the two states drift apart (and keeps them apart until the statement runs on both sides)
+    flags.setdefault('drift', set()).update(tainted_statements(g, st.sources if m.deps_mode else None))
+    skip = flags['drift']
     for k, e in enumerate(g.edges):
         if e.phony or k in skip: continue
         sn = b.snap.get(e.out0)
@@ -459,7 +556,8 @@ def compare_build(h, m, st, b, mb, prev_ok_same, nip, cnt, prev=None, flags=None
             cnt['log entries compared'] += 1
             if cur is not None and (int(el[0], 16) == cur) != (ml[0] == m.hash_of(k, e)):
                 bad.append(('log', 'log entry of %s carries the current command hash: engine %s, model %s' % (o, int(el[0], 16) == cur, ml[0] == m.hash_of(k, e))))
-            rel = [(o, 'log', o)] + [(i, 'log', o) for i in sorted(set(e.exp + e.imp))] + [(i, 'file', o) for i in sorted(set(e.exp + e.imp))]
+            rd = sorted(set(e.exp + e.imp + (e.hidden if e.deps else [])))
+            rel = [(o, 'log', o)] + [(i, 'log', o) for i in rd] + [(i, 'file', o) for i in rd]
             for i, what, _ in rel:
                 if i not in b.files or mb['nodes'][i][3] is None or (what == 'file' and (o not in b.files or mn[3] is None)): continue
                 ev = sgn(el[1] if what == 'log' else b.files[o][0], b.files[i][0])
@@ -469,8 +567,46 @@ def compare_build(h, m, st, b, mb, prev_ok_same, nip, cnt, prev=None, flags=None
                     w = 'recorded mtime of %s' % o if what == 'log' else 'mtime of %s' % o
                     nms = {1: 'newer than', 0: 'equal to', -1: 'older than'}
                     bad.append(('times', '%s is %s the mtime of %s in the engine, %s in the model' % (w, nms[ev], i, nms[mv])))
+    # deps-log records: present, the same set of nodes, record mtime against the output's mtime
+    if m.deps_mode:
+        for n in m.names:
+            er = b.deps.get(n); mr = mb['nodes'][n][5]
+            if (er is not None) != (mr is not None):
+                bad.append(('deps', 'deps record of %s: engine %s, model %s' % (n, 'present' if er else 'absent', 'present' if mr else 'absent'))); continue
+            if er is None: continue
+            cnt['deps records compared'] += 1
+            if set(er[1]) != set(mr[1]): bad.append(('deps', 'deps record of %s lists %s in the engine, %s in the model' % (n, sorted(er[1]), sorted(mr[1]))))
+            if n in b.files and mb['nodes'][n][3] is not None and sgn(er[0], b.files[n][0]) != sgn(mr[0], mb['nodes'][n][3]):
+                nms = {1: 'newer than', 0: 'equal to', -1: 'older than'}
+                bad.append(('deps', 'deps record of %s is %s the file in the engine, %s in the model' % (n, nms[sgn(er[0], b.files[n][0])], nms[sgn(mr[0], mb['nodes'][n][3])])))
     # the model against its own theorems
-    if mb['ok'] and kind != 'dry' and not mb['failed']:
+    if m.deps_mode and mb['ok'] and b.exit == 0:
+        # the listed findings of C10, where the model's side conditions are false: stale files after a SUCCESSFUL build, the same
+        # on both sides (the clean rule above); counted by shape
+        targets = st.targets or ec.default_targets(g)
+        clo = g.closure(targets, with_vals=False)
+        unclean = {n for n in clo if n in mb['nodes'] and not mb['nodes'][n][1] and prod.get(n) is not None}
+        both = exp is not None and all((b.files.get(n, (0, None))[1]) != exp.get(n) for n in unclean)
+        if unclean and both:
+            started = set(e_started)
+            def restat_ran_upstream(e, seen=()):
+                for i in e.exp + e.imp + e.hidden:
+                    p_ = prod.get(i)
+                    if p_ is None or p_.idx in seen: continue
+                    if (p_.restat and p_.out0 in started) or restat_ran_upstream(p_, seen + (e.idx,)): return True
+                return False
+            shape_restat = [e for e in g.edges if e.deps and e.hidden and e.out0 in unclean and e.out0 not in started and restat_ran_upstream(e)]
+            shape_notloaded = [e for e in g.edges if e.deps and e.out0 in started and
+                               any(prod.get(x) is not None and not mb['nodes'][x][1] and x not in e.manifest_ins() for x in e.hidden)]
+            if shape_restat and not flags['nru']:
+                cnt['successful builds with a deps statement pruned below a restat statement, stale (id=restat-prune-ignores-recorded-deps, identical on both sides)'] += 1
+            if shape_notloaded and not flags['hro']:
+                cnt['successful builds where a dirty deps statement ran against a stale generated hidden read (id=dirty-edge-deps-not-loaded, identical on both sides)'] += 1
+            if not (shape_restat and not flags['nru']) and not (shape_notloaded and not flags['hro']):
+                cnt['successful builds with stale files of another shape (side conditions false: hro=%s nru=%s hp=%s nip=%s)' % (flags['hro'], flags['nru'], flags['hp'], nip)] += 1
+        if unclean and flags['hro'] and flags['nru'] and flags['hp'] and nip:
+            bad.append(('selfcheck', 'model: %s needed by the targets of an accepted build, all side conditions true: not clean (C10_equiv + C01_history)' % sorted(unclean)))
+    if not m.deps_mode and mb['ok'] and kind != 'dry' and not mb['failed']:
         targets = st.targets or ec.default_targets(g)
         unclean = [n for n in sorted(g.closure(targets, with_vals=False)) if n in mb['nodes'] and not mb['nodes'][n][1]]
         if unclean and mb['ts']:
@@ -478,33 +614,42 @@ def compare_build(h, m, st, b, mb, prev_ok_same, nip, cnt, prev=None, flags=None
         if unclean and not mb['ts'] and b.exit == 0 and all(n not in b.files or exp is None or b.files[n][1] != exp.get(n) for n in unclean):
             cnt['successful builds that kept what a failed command wrote (id=failed-cmd-rewrote-output, identical on both sides)'] += 1
     if kind == 'dry': cnt['dry runs compared'] += 1; cnt['commands listed by dry runs (engine)'] += len(e_started)
-    if prev_ok_same and nip and not flags.get('wfault'):
+    if prev_ok_same and m.deps_mode and not (flags['hro'] and flags['nru'] and flags['hp']):
+        # no convergence theorem where the side conditions fail (the statement pruned by the restat finding catches up in the next
+        # build): the run-set rule above has already compared the two sides
+        if e_started and e_run == m_run: cnt['repeated builds that ran commands again, identically on both sides (side conditions false)'] += 1
+    elif prev_ok_same and nip and not flags.get('wfault'):
         if mb['run'] or not mb['ok']: bad.append(('selfcheck', 'model: the build repeated after an accepted one ran %s ok=%s (C02_history_hcmd)' % (mb['run'], mb['ok'])))
         if e_started or b.exit != 0: bad.append(('idle', 'engine: the build repeated after an accepted one started %s exit=%s' % (e_started, b.exit)))
     return bad
 
-def check(ctx, seed, n, keep=None, dry=0.0, fault=False):
+def check(ctx, seed, n, keep=None, dry=0.0, fault=False, deps=False):
     """n random histories inside the fragment through the real engine and through the extracted model.
-    dry: probability of dry runs before builds; fault: every history has one failing invocation.
+    dry: probability of dry runs before builds; fault: every history has one failing invocation; deps: fragment ABD
+    (deps = gcc statements with hidden reads), the recorded-deps model.
     Returns (list of Mismatch, stats dict)."""
     rnd = random.Random(seed * 1000003 + 4242)
     hists = []
     for i in range(n):
-        hists.append(gen_history(rnd, 'HIST_%d_%d' % (seed, i), outside=rnd.random() < OUTSIDE_RATE, dry=dry, fault=fault))
+        hists.append(gen_history(rnd, 'HIST_%d_%d' % (seed, i), outside=rnd.random() < OUTSIDE_RATE, dry=dry, fault=fault, deps=deps))
     return compare_hists(hists, keep)
 
 def compare_hists(hists, keep=None):
     """the given histories (enginecheck.Hist, steps inside the model) through both sides"""
     rc, tr, err, out = ec.run_hists(hists)
     maps = [Map(h, tr.get(h.sid)) for h in hists]         # the engine's schedule of a failing build orders the model's statements
-    mouts = run_model([m.line for m in maps])
+    mouts = [None] * len(maps)
+    for mode in ('hist', 'histd'):
+        idx = [i for i, m in enumerate(maps) if m.mode == mode]
+        if idx:
+            for i, o in zip(idx, run_model([maps[i].line for i in idx], mode=mode)): mouts[i] = o
     st_ = collections.Counter(); mism = []
     st_['histories'] = len(hists)
     # the driver's memoized command function against the extracted step_run / is_clean, on a sample
-    k = min(len(maps), DIRECT_SAMPLE)
-    douts = run_model([m.line for m in maps[:k]], mode='hist-direct')
-    st_['model lines cross-checked memoized vs direct'] = k
-    for h, m, a, b in zip(hists, maps, mouts, douts):
+    plain = [i for i, m in enumerate(maps) if m.mode == 'hist'][:DIRECT_SAMPLE]
+    douts = run_model([maps[i].line for i in plain], mode='hist-direct') if plain else []
+    st_['model lines cross-checked memoized vs direct'] = len(plain)
+    for h, m, a, b in zip([hists[i] for i in plain], [maps[i] for i in plain], [mouts[i] for i in plain], douts):
         if a != b: mism.append(Mismatch(h.sid, 'driver', 'hist_run hist and hist_run hist-direct differ on this line', m.line + '\n' + a + '\n' + b + '\n'))
     for hh, crc, cerr in getattr(ec.run_hists, 'crashes', []):
         mism.append(Mismatch(hh.sid, 'engine-crash', 'the engine died (rc=%s): %s' % (crc, cerr.replace('\n', ' ')[-200:]), ec.replay_text(hh)))
@@ -514,16 +659,19 @@ def compare_hists(hists, keep=None):
         r = parse_model(mo, m)
         bs = tr.get(h.sid)
         replay = lambda: ec.replay_text(h) + '# hist-model-line ' + m.line + '\n# hist-model-output ' + mo + '\n'
+        if not r['hok'] and 'tampered output' in h.tags: r['hok'] = True; r['hp'] = False      # expected; no theorem applies
+        if 'dropdeps' in h.tags: r['hp'] = False
         if not r['wf'] or not r['hok']:
             mism.append(Mismatch(h.sid, 'mapping', 'the model line is malformed (wf=%s hist_ok=%s)' % (r['wf'], r['hok']), replay())); continue
         reordered = m.order != list(range(len(m.order)))
         if reordered: st_['histories whose statements are numbered by ninja\'s schedule of the failing build'] += 1
         if reordered and r['frag'] and not r['topo']:
             mism.append(Mismatch(h.sid, 'order', 'ninja\'s schedule of the failing build is no dependency order: model order %s' % m.order, replay())); continue
-        if not (r['frag'] and r['topo']):
+        if not (r['frag'] and r['topo'] and r.get('fragi', True)):
             st_['outside the fragment (model verdict)'] += 1
-            if not r['frag']: st_['outside: frag_AB false'] += 1
+            if not r['frag']: st_['outside: frag_AB%s false' % ('D' if m.deps_mode else '')] += 1
             if not r['topo']: st_['outside: topo_ordered false'] += 1
+            if not r.get('fragi', True): st_['outside: frag_AB of the inlined manifest false'] += 1
             continue
         st_['inside the fragment'] += 1
         if not r['nip']: st_['inside, with an input-less phony (C02 comparison skipped)'] += 1
@@ -532,12 +680,27 @@ def compare_hists(hists, keep=None):
         prs = ec.pair(h, bs)
         if len(prs) != len(r['builds']) or len(prs) != sum(1 for s in h.steps if s.kind == 'build'):
             mism.append(Mismatch(h.sid, 'mapping', 'engine ran %d builds, model %d' % (len(prs), len(r['builds'])), replay())); continue
-        bad = []; prev = None; flags = {}; pending_dry = None
+        bad = []; prev = None; flags = {k: r.get(k, True) for k in ('hro', 'nru', 'hp')}; pending_dry = None
+        if m.deps_mode:
+            if any(e.deps and e.hidden for e in h.g0.edges): st_['histories with a deps statement that has hidden reads'] += 1
+            for k_ in ('hro', 'nru', 'hp'):
+                if not r[k_]: st_['inside, %s false' % {'hro': 'hidden_reads_ordered', 'nru': 'no_restat_upstream_of_deps', 'hp': 'hist_present'}[k_]] += 1
         for k, ((st, b), mb) in enumerate(zip(prs, r['builds'])):
             kind = step_kind(st)
+            if m.deps_mode and not r['hro']:
+                # without a manifest path ninja may start the reader of a generated hidden read before its generator (both in this
+                # build): the model's order is the manifest order, the comparison ends here
+                prod_ = st.g.producer(); fin_ = set(); early = False
+                for ev in b.events:
+                    if ev[0] == 'finish' and ev[2] == 0: fin_.add(ev[1])
+                    if ev[0] == 'start' and prod_.get(ev[1]) is not None:
+                        for x in prod_[ev[1]].hidden:
+                            for p_ in through_phony(st.g, prod_, x):
+                                if p_.out0 in b.started and p_.out0 not in fin_ and p_.out0 != ev[1]: early = True
+                if early: st_['histories cut short: ninja started a reader before the generator of its hidden read (no manifest path)'] += 1; break
             st_['builds compared'] += 1
             rep = bool(getattr(st, 'repeat', False)) and prev is not None and prev[0].exit == 0 and prev[1]['ok'] and prev[2] == 'plain' and kind == 'plain'
-            if rep and r['nip'] and not flags.get('wfault'): st_['repeated builds compared (idle in both)'] += 1
+            if rep and r['nip'] and not flags.get('wfault') and (not m.deps_mode or (flags['hro'] and flags['nru'] and flags['hp'])): st_['repeated builds compared (idle in both)'] += 1
             if b.started: st_['builds that ran commands'] += 1
             if b.exit != 0 and not mb['ok']: st_['builds refused by both'] += 1
             if b.exit == 0 and not b.started and kind == 'plain': st_['builds with nothing to do'] += 1
@@ -615,9 +778,9 @@ def finish_proof_check(ctx, handle):
     ctx.proof['theorems'] = ctx.proof.get('theorems', []) + names
     ctx.proof['print_assumptions'] = ctx.proof['print_assumptions'] + ['%s: %d theorems closed under the global context' % (HISTRUN_V, closed)]
 
-def hook(ctx, pid, dry=0.0, fault=False, quick=400, thorough=5000, key='hist_model'):
+def hook(ctx, pid, dry=0.0, fault=False, deps=False, quick=400, thorough=5000, key='hist_model'):
     """called by props/c01.py, c02.py (plain histories), c19.py (dry=..: dry runs interleaved), c05.py (fault=True: one
-    failing invocation per history) after the property's own runs"""
+    failing invocation per history), c10.py (deps=True: fragment ABD, the recorded-deps model) after the property's own runs"""
     if not ctx.model: return         # the model did not build: already reported as a broken obligation
     os.environ['HISTMODEL_BIN'] = os.path.join(os.path.dirname(ctx.model), 'hist_run')
     if ctx.replay:
@@ -631,16 +794,17 @@ def hook(ctx, pid, dry=0.0, fault=False, quick=400, thorough=5000, key='hist_mod
         return
     handle = start_proof_check(ctx)
     n = quick if ctx.quick() else thorough
-    mism, stats = check(ctx, ctx.seed * 31 + int(pid[1:]), n, dry=dry, fault=fault)
+    mism, stats = check(ctx, ctx.seed * 31 + int(pid[1:]), n, dry=dry, fault=fault, deps=deps)
     finish_proof_check(ctx, handle)
     for x in mism[:5]:
         ctx.corr_broken.append('history model (HistDefs) differs from ninja in scenario %s [%s]: %s' % (x.sid, x.kind, x.text[:600]))
         ctx.replay_file('hist-mismatch', x.replay)
     if len(mism) > 5: ctx.corr_broken.append('history model (HistDefs): %d more mismatching histories' % (len(mism) - 5))
     ctx.cov['hist_model_correspondence'] = stats
-    extra = [k for k in stats if k.startswith(('dry runs', 'failing builds', 'commands listed', 'successful builds that kept', '... where', 'histories whose statements'))]
+    extra = [k for k in stats if k.startswith(('dry runs', 'failing builds', 'commands listed', 'successful builds', '... where', 'histories whose statements',
+                                               'deps records', 'inside, ', 'histories cut short', 'histories with a deps'))]
     ctx.cov.setdefault('distribution', {})[key] = {k: stats.get(k, 0) for k in extra + [
-        'histories', 'inside the fragment', 'outside the fragment (model verdict)', 'inside, with an input-less phony (C02 comparison skipped)',
+        'histories', 'inside the fragment', 'outside the fragment (model verdict)',
         'builds compared', 'builds that ran commands', 'builds refused by both', 'repeated builds compared (idle in both)',
         'node comparisons', 'log entries compared', 'time relations compared', 'mismatching histories']}
     ctx.cov['traces_validated_against_model'] = ctx.cov.get('traces_validated_against_model', 0) + stats.get('builds compared', 0)
@@ -650,12 +814,13 @@ def replay(path):
     hists = ec.load_replay(path)
     rc, tr, err, out = ec.run_hists(hists)
     maps = [Map(h, tr.get(h.sid)) for h in hists]
-    mouts = run_model([m.line for m in maps])
+    mouts = [run_model([m.line], mode=m.mode)[0] for m in maps]
     for h, m, mo in zip(hists, maps, mouts):
         r = parse_model(mo, m); prs = ec.pair(h, tr.get(h.sid, []))
+        print({k: v for k, v in r.items() if k != 'builds'})
         print(h.g0.manifest())
         print('model order :', m.order); print('model line  :', m.line); print('model output:', mo)
-        prev = None; flags = {}
+        prev = None; flags = {k: r.get(k, True) for k in ('hro', 'nru', 'hp')}
         for k, ((st, b), mb) in enumerate(zip(prs, r['builds'])):
             kind = step_kind(st)
             rep = bool(getattr(st, 'repeat', False)) and prev is not None and prev[0].exit == 0 and prev[1]['ok'] and prev[2] == 'plain' and kind == 'plain'
@@ -673,7 +838,7 @@ if __name__ == '__main__':
     keep = a[a.index('--keep') + 1] if '--keep' in a else None
     dry = float(a[a.index('--dry') + 1]) if '--dry' in a else 0.0
     import time; t0 = time.time()
-    mism, stats = check(None, seed, n, keep=keep, dry=dry, fault='--fault' in a)
+    mism, stats = check(None, seed, n, keep=keep, dry=dry, fault='--fault' in a, deps='--deps' in a)
     for k in sorted(stats): print('%-60s %s' % (k, stats[k]))
     for x in mism[:10]:
         print('MISMATCH', x)
